@@ -22,7 +22,7 @@ META = {
 }
 
 THEOREMS = ["C05.wait_returns_after_signal", "C05.event_sane", "C05.sync_runs_item_exclusively", "C05.handoff_edge", "C05.queue_release_sites", "C05.queue_acquire_sites",
-            "C05.event_sites", "C05.group_sema_once_sites", "C05.handoff_locations_rmw_only"]
+            "C05.event_sites", "C05.group_sema_once_sites", "C05.once_return_sites", "C05.handoff_locations_rmw_only"]
 
 
 def run(ctx):
